@@ -21,6 +21,25 @@ Theorem C12_drain_no_read_after_end : forall b d,
 Proof. exact close_after_end_reads_nothing. Qed.
 Print Assumptions C12_drain_no_read_after_end.
 
+(* bodies of any size: a body whose segments and Read buffers are whole multiples of a unit of S m bytes is the same
+   machine counted in units - every Read returns S m times as much with the same error, what is left unread is
+   S m times as much. C12_drain is stated for every segment list, so it covers the MiB bodies of the correspondence
+   run, which are given in units. *)
+Theorem C12_drain_any_unit : forall m d k,
+  d_read (scale_drc m d) (k * S m) = (let '(n, r, d') := d_read d k in (n * S m, r, scale_drc m d')) /\
+  seg_bytes (u_segs (d_u (scale_drc m d))) = seg_bytes (u_segs (d_u d)) * S m.
+Proof. exact drain_any_unit. Qed.
+Print Assumptions C12_drain_any_unit.
+
+(* the drain has to go to the end: one that gives up after a bounded number of Reads (io.CopyN) closes a long
+   enough body before its end was seen *)
+Theorem C12_drain_refuted_if_capped :
+  exists cap b segs fin,
+    let d' := d_close_capped cap b (d_init segs fin) in
+    u_closes (d_u d') = 1 /\ u_finished (d_u d') = false /\ 0 < seg_bytes (u_segs (d_u d')).
+Proof. exact capped_drain_refuted. Qed.
+Print Assumptions C12_drain_refuted_if_capped.
+
 (* ---- release, over all fault placements ---- *)
 (* for every number of form values, every list of files (declared or sniffed, every placement of failing
    source Reads) and every scenario (parameter error, auth writer absent / ok / failing, asking for the body
@@ -156,3 +175,26 @@ Theorem C12_return_bound : forall parent now timeout m,
   (timeout <> 0%Z -> (m <= Z.max now (now + timeout))%Z).
 Proof. exact must_return_by_bounds. Qed.
 Print Assumptions C12_return_bound.
+
+(* an http.Client with a Timeout of its own (NewWithClient, ClientOperation.Client): its timer comes on top of the
+   request timeout and the caller's deadline; it can end the call earlier, never later, and a Timeout of zero or
+   less changes nothing *)
+Theorem C12_client_timeout_only_shortens : forall parent now timeout client d,
+  effective_deadline parent now timeout = Some d ->
+  exists d', effective_deadline_with_client parent now timeout client = Some d' /\ (d' <= d)%Z.
+Proof. exact client_timeout_only_shortens. Qed.
+Print Assumptions C12_client_timeout_only_shortens.
+
+Theorem C12_client_timeout_none : forall parent now timeout client,
+  (client <= 0)%Z -> effective_deadline_with_client parent now timeout client = effective_deadline parent now timeout.
+Proof. exact client_timeout_none. Qed.
+Print Assumptions C12_client_timeout_none.
+
+(* leaving a client that has a Timeout to that timer alone is a different function: with a longer client Timeout the
+   call outlives the request timeout *)
+Theorem C12_deadline_refuted_if_client_timeout_replaces_request_timeout :
+  exists parent now timeout client d d',
+    effective_deadline parent now timeout = Some d /\
+    effective_deadline_client_instead parent now timeout client = Some d' /\ (d < d')%Z.
+Proof. exact client_instead_refuted. Qed.
+Print Assumptions C12_deadline_refuted_if_client_timeout_replaces_request_timeout.
